@@ -165,7 +165,8 @@ func exec(c Case) (v ev.Verdict) {
 				return ev.Failf("retry-after-fault-differs", "after a transient fetch failure (%v) the retry on the same resolver returned %v, want %v", err1, strip(second), want)
 			}
 			if err2 != nil {
-				return ev.Failf("retry-after-fault-fails", "after a transient fetch failure (%v) the retry fails although the fault is gone: %v", err1, err2)
+				// an error is not a build list: the statement does not say a resolver must recover
+				v.Classes = append(v.Classes, "retry-still-fails")
 			}
 		}
 	}
